@@ -126,6 +126,20 @@ Theorem C10_popt_applied :
 Proof. exact popt_applied. Qed.
 Print Assumptions C10_popt_applied.
 
+(* 9b. at R: during the optimisation every evaluation of the curve leaves the model with the requested (fixed / deselected)
+   variance, whatever len_scale / opt args the evaluation wrote (TPL models: var_factor changes); [fit_trace] is the list of
+   model states after each evaluation, the last of which is the state _post_fitting starts from (C10_Proofs.evals_states_run) *)
+Theorem C10_curve_restores_variance :
+  forall (ora : nat -> list R -> R), (forall args, ora ORA_VARFACTOR args <> 0%R) ->
+  forall (c : Cfg R) (nopt : nat) (sel : list (nat * Sel R)) (sill : SillSpec R) (anis : AnisSpec R) (isdir : bool)
+         (evs : list (list R)) (s0 s1 : MState R) (para : Para) (so : option R) (af : bool) (l : list (MState R)),
+  pre_para (Rops ora) true c nopt sel sill anis s0 = Ok (s1, para, so, af) ->
+  p_var para = false ->
+  fit_trace (Rops ora) true c nopt sel sill anis isdir evs s0 = Ok l ->
+  Forall (fun s' => get_var (Rops ora) s' = get_var (Rops ora) s1) l.
+Proof. exact trace_restores_variance. Qed.
+Print Assumptions C10_curve_restores_variance.
+
 (* 10-12. the bookkeeping of the PINNED tree violates the property (rationals, computed) *)
 Theorem C10_sill_exact_refuted :
   exists (s' : MState Q) (d : Dict Q),
